@@ -89,6 +89,86 @@ func After(d Duration) *vchan.Chan[Time] {
 	return ch
 }
 
+// Timer: a one-shot virtual thread like After, with Stop and Reset. Stop reports whether it
+// prevented the delivery.
+type Timer struct {
+	C *vchan.Chan[Time]
+
+	real    *time.Timer
+	f       func()
+	gen     int  // incremented by Stop / Reset: an older delivery thread gives up
+	pending bool // armed and not yet fired or stopped
+}
+
+func NewTimer(d Duration) *Timer {
+	t := &Timer{C: vchan.Make[Time](1)}
+	if !core.Controlled {
+		t.real = time.AfterFunc(d, func() { t.C.TrySend(time.Now()) })
+		return t
+	}
+	t.arm(d)
+	return t
+}
+
+// AfterFunc runs f on its own (daemon) thread when the timer fires.
+func AfterFunc(d Duration, f func()) *Timer {
+	t := &Timer{f: f}
+	if !core.Controlled {
+		t.real = time.AfterFunc(d, f)
+		return t
+	}
+	t.arm(d)
+	return t
+}
+
+func (t *Timer) arm(d Duration) {
+	t.gen++
+	t.pending = true
+	my := t.gen
+	at := clock() + int64(d)
+	core.GoDaemon(func() {
+		stale := func() bool { return t.gen != my }
+		if t.f != nil {
+			core.Pause()
+			if core.Exiting() || stale() {
+				return
+			}
+			t.pending = false
+			advance(at)
+			t.f()
+			return
+		}
+		t.C.SendWith(epoch.Add(Duration(at)), stale, func() { t.pending = false; advance(at) })
+	})
+}
+
+func (t *Timer) Stop() bool {
+	if !core.Controlled {
+		return t.real.Stop()
+	}
+	core.Point(core.KStore, unsafe.Pointer(t), nil)
+	if core.Exiting() {
+		return false
+	}
+	was := t.pending
+	t.pending = false
+	t.gen++
+	core.Done(core.KStore, unsafe.Pointer(t), 2)
+	return was
+}
+
+func (t *Timer) Reset(d Duration) bool {
+	if !core.Controlled {
+		return t.real.Reset(d)
+	}
+	was := t.Stop()
+	if core.Exiting() {
+		return false
+	}
+	t.arm(d)
+	return was
+}
+
 type Ticker struct {
 	C       *vchan.Chan[Time]
 	real    *time.Ticker
